@@ -151,6 +151,7 @@ pub fn c13() -> PropDef {
         check: check_c13,
         adjust: no_adjust,
         assumptions: COMMON_ASSUMPTIONS,
+        tiny: no_tiny,
     }
 }
 
@@ -317,5 +318,6 @@ pub fn c14() -> PropDef {
         check: check_c14,
         adjust: no_adjust,
         assumptions: COMMON_ASSUMPTIONS,
+        tiny: no_tiny,
     }
 }
